@@ -213,9 +213,12 @@ def main():
         # 3. oracle step
         failures = []
         oracle_stats = {}
+        oracle_ties = []
         for oname in cfg["oracles"]:
             res = props.run_oracle(ctx, oname, focus=corr_bad)
             oracle_stats[oname] = {k: v for k, v in res.items() if k != "failures"}
+            if res.get("tie_broken"):
+                oracle_ties.append({"request": "<static check of oracle %s>" % oname, "impl": res["tie_broken"], "model": "pure, silent"})
             for f in res["failures"]:
                 failures.append(dict(f, oracle=oname))
 
@@ -238,12 +241,12 @@ def main():
             json.dump({"property": pid, "kind": "failing-input", "seed": seed, "tier": tier,
                        "failures": new_failures[:20]}, open(rp, "w"), indent=1, ensure_ascii=False)
             violation = "VIOLATION property=%s replay=%s" % (pid, rp)
-        elif not proof_ok or corr_bad:
+        elif not proof_ok or corr_bad or oracle_ties:
             rp = os.path.join(VERIF, "replay", "%s-%s-%d.json" % (pid, tier, seed))
             json.dump({"property": pid, "kind": "tie-broken", "seed": seed, "tier": tier,
                        "proof": {k: proof[k] for k in ("module", "built", "bad_axioms", "forbidden", "log")},
                        "theorems": proof["theorems"],
-                       "correspondence_disagreements": corr_bad[:20],
+                       "correspondence_disagreements": (corr_bad + oracle_ties)[:20],
                        "note": "no failing input found by the property oracle; the theorem or stream named here no longer checks"},
                       open(rp, "w"), indent=1, ensure_ascii=False)
             violation = "VIOLATION property=%s replay=%s no-failing-input-found" % (pid, rp)
